@@ -403,6 +403,9 @@ func (rp *recvProp) run(c Case, component bool, smid string, n0 int, rng *rand.R
 	for runtime.NumGoroutine() > base && time.Now().Before(deadline) {
 		time.Sleep(200 * time.Microsecond)
 	}
+	if rcSess != nil && !hang && pendCh == nil {
+		awaitRouted(&mu, &routed, int(rcSess.SMState.Inbound)-n0)
+	}
 	leaked := runtime.NumGoroutine() - base
 	if hang {
 		hungCases++ // a blocked receive loop: the run stops after three such cases (each costs its full time limit)
@@ -486,6 +489,28 @@ func (rp *recvProp) run(c Case, component bool, smid string, n0 int, rng *rand.R
 		mu.Lock()
 	}
 	return s
+}
+
+// awaitRouted: every stanza the receive loop COUNTED was handed to a routing goroutine started with `go`; on a loaded
+// machine such a goroutine can still be waiting for a processor when the goroutine count has already fallen back to the
+// baseline (other goroutines of the case end too). Wait (at most 2 s more) until as many stanzas were routed as were
+// counted. A library that counts wrongly only makes this wait useless, not the observation wrong.
+func awaitRouted(mu *sync.Mutex, routed *[]string, want int) {
+	deadline := time.Now().Add(2 * time.Second)
+	for time.Now().Before(deadline) {
+		mu.Lock()
+		k := 0
+		for _, r := range *routed {
+			if strings.HasPrefix(r, "msg:") || strings.HasPrefix(r, "pres:") || strings.HasPrefix(r, "iq:") {
+				k++
+			}
+		}
+		mu.Unlock()
+		if k >= want {
+			return
+		}
+		time.Sleep(200 * time.Microsecond)
+	}
 }
 
 // ---- generators ------------------------------------------------------------------------------------
